@@ -68,11 +68,23 @@ func l4Layer(l l4, scn *slayers.SCION) gopacket.SerializableLayer {
 	return s
 }
 
+// shared, when not nil, is the one serialize buffer all packets of the current sequence go through
+// (gopacket.SerializeLayers clears it; the memory handed out by PrependBytes is then the previous
+// packet's). nil: a fresh buffer for every serialization.
+var shared gopacket.SerializeBuffer
+
+func getBuf() gopacket.SerializeBuffer {
+	if shared != nil {
+		return shared
+	}
+	return gopacket.NewSerializeBuffer()
+}
+
 // serL4 serializes the L4 layer and the payload alone. code: 0 ok, 1 error, 3 panic.
 func serL4(h hdr, l l4, payload []byte) (out []byte, code int) {
 	panicked, _ := vgen.Recover(func() {
 		scn := scionLayer(h, l)
-		buf := gopacket.NewSerializeBuffer()
+		buf := getBuf()
 		err := gopacket.SerializeLayers(buf, gopacket.SerializeOptions{FixLengths: l.Fix, ComputeChecksums: true},
 			l4Layer(l, scn), gopacket.Payload(payload))
 		if err != nil {
@@ -91,7 +103,7 @@ func serL4(h hdr, l l4, payload []byte) (out []byte, code int) {
 func serFull(h hdr, l l4, payload []byte) (out []byte, ok bool) {
 	panicked, _ := vgen.Recover(func() {
 		scn := scionLayer(h, l)
-		buf := gopacket.NewSerializeBuffer()
+		buf := getBuf()
 		err := gopacket.SerializeLayers(buf, gopacket.SerializeOptions{FixLengths: true, ComputeChecksums: true},
 			scn, l4Layer(l, scn), gopacket.Payload(payload))
 		if err != nil {
@@ -267,12 +279,28 @@ func main() {
 		"(lengths 0..9000, odd and even; quick tier mostly < 160 bytes, a few up to 9000) serialized by the real code with " +
 		"ComputeChecksums, as a full SCION packet where possible; every 16th case is tuned so that the checksum comes out " +
 		"0x0000 (one's complement corner); 4-24 single-bit flips per case over all regions, each re-serialized by the real " +
-		"code; plus malformed headers (missing / odd-length raw addresses). non-trivial = serialization succeeded"
+		"code; plus malformed headers (missing / odd-length raw addresses). Cases form sequences of 8; in 3 of 4 sequences every " +
+		"serialization goes through one recycled gopacket.SerializeBuffer (Clear between packets, sizes and UDP/SCMP mixed), " +
+		"in the others through fresh buffers. non-trivial = serialization succeeded"
 	rng := vgen.NewRand(run.Seed)
 
+	// Cases come in sequences of seqLen consecutive ids. In three of four sequences all serializations
+	// (base, full packet, corner pre-run, flips) of all its packets go through ONE SerializeBuffer, the way
+	// router, dispatcher and snet recycle theirs: packets of different sizes, UDP and SCMP interleaved, so
+	// that the checksum field of a packet lands on bytes the previous packets left behind. Every fourth
+	// sequence uses a fresh buffer per serialization. A sequence is executed as a whole when any of its
+	// ids is wanted (-only), so a replay sees the same buffer history.
+	const seqLen = 8
 	n := run.Count(320, 5000)
 	for i := 0; i < n; i++ {
 		r := rng.Fork(uint64(i))
+		seq := i / seqLen
+		if i%seqLen == 0 {
+			shared = nil
+			if seq%4 != 0 {
+				shared = gopacket.NewSerializeBuffer()
+			}
+		}
 		var h hdr
 		h.DstIA, h.SrcIA = genIA(r), genIA(r)
 		h.DstType, h.RawDst = genAddr(r)
@@ -319,10 +347,15 @@ func main() {
 			nflips = 24
 		}
 		fr := r.Fork(7)
-		if !run.Want() {
+		wantSeq := false
+		for id := seq * seqLen; id < (seq+1)*seqLen; id++ {
+			wantSeq = wantSeq || run.WantID(id)
+		}
+		if !wantSeq {
 			run.Skip()
 			continue
 		}
+		want := run.Want()
 		if corner {
 			// put the checksum of a first run into a zeroed, word-aligned payload word: the second run
 			// then sums to 0xFFFF before complementing, i.e. writes 0x0000
@@ -344,7 +377,9 @@ func main() {
 			} else if !bytes.Equal(full, out) {
 				goViol = "L4 bytes inside the full SCION packet differ from the L4 layer serialized alone"
 			}
-			run.Tally("path:full-packet")
+			if want {
+				run.Tally("path:full-packet")
+			}
 		}
 		var flips []flip
 		if code == 0 {
@@ -379,14 +414,25 @@ func main() {
 					continue
 				}
 				flips = append(flips, flip{uint64(region), uint64(idx), uint64(bit), ck})
-				run.Tally(fmt.Sprintf("flip:region%d", region))
+				if want {
+					run.Tally(fmt.Sprintf("flip:region%d", region))
+				}
 			}
+		}
+		if !want {
+			run.Skip()
+			continue
 		}
 		kind := "scmp"
 		if l.UDP {
 			kind = "udp"
 		}
 		run.Tally("l4:" + kind)
+		if shared != nil {
+			run.Tally("buffer:recycled")
+		} else {
+			run.Tally("buffer:fresh")
+		}
 		run.Tally(fmt.Sprintf("addr-len:%d/%d", len(h.RawDst), len(h.RawSrc)))
 		run.Tally(fmt.Sprintf("payload-odd:%v", plen%2 == 1))
 		switch {
@@ -415,7 +461,8 @@ func main() {
 		desc := map[string]any{"l4": kind, "dst_ia": h.DstIA, "src_ia": h.SrcIA,
 			"dst_type": h.DstType, "src_type": h.SrcType, "raw_dst": fmt.Sprintf("%x", h.RawDst),
 			"raw_src": fmt.Sprintf("%x", h.RawSrc), "payload_len": plen, "fix_lengths": l.Fix,
-			"malformed": malformed, "corner": corner, "result": code, "checksum": ck, "flips": flips}
+			"malformed": malformed, "corner": corner, "result": code, "checksum": ck, "flips": flips,
+			"recycled_buffer": shared != nil, "sequence": seq}
 		if plen <= 64 {
 			desc["payload"] = fmt.Sprintf("%x", payload)
 		}
